@@ -97,7 +97,7 @@ def generate(reg, key, budget=None):
     t0 = time.time()
     c = reg.contracts[key]
     try:
-        mod, cls, fn, enclosing = find_target(key)
+        mod, cls, fn, enclosing = find_target(key.split("#")[0])   # 'path:qual#tag': a second contract on the same function
         run.fingerprint = fn_fingerprint(mod, fn)
         cases = c.cases or [None]
         for ci, case in enumerate(cases):
@@ -129,7 +129,7 @@ def generate(reg, key, budget=None):
                 it.old_env = old
                 sp.old_env = old
                 ctx.inputs = old
-                fv = VFunc(fn, mod, closure_env, key.split(":")[1], cls)
+                fv = VFunc(fn, mod, closure_env, key.split("#")[0].split(":")[1], cls)
                 a = fn.args
                 pos = [vals[p.arg] for p in a.posonlyargs + a.args]
                 kw = {p.arg: vals[p.arg] for p in a.kwonlyargs}
